@@ -19,6 +19,7 @@ from the source).
 import GlotaranProofs.Lemmas.C12
 import GlotaranProofs.Lemmas.C12Regex
 import GlotaranProofs.Lemmas.C12Fail
+import GlotaranProofs.Lemmas.C12Gen
 namespace Glotaran.C12
 
 /-- **After an update every expression parameter has the value of its expression on the
@@ -671,5 +672,229 @@ example : quoteChar ∉ demoText ∧ quoted (rewriteL demoText) = [['b', '.', '1
 example : labelsOf (lookupText ['c']) = [] ∧ quoted (rewriteL (lookupText ['c'])) = [['c']] := by decide +kernel
 
 end Rewriting
+
+section GeneratedFunctions
+open Py
+/-! ## the functions regenerated from the source (GlotaranModel/Generated/C12Fns.lean)
+
+The definitions `Gen.*` are the translator's statement-by-statement transcription of
+`Parameters.update_parameter_expression`, `Parameters.__init__`, `Parameters.copy`, `Parameters.all`,
+`Parameter.copy` and `set_transformed_expression` over the Python-level objects of `C12Py.lean`
+(expression *texts*, bounds, the dict keyed by label).  `absAll P` is the model's view of such a dict
+(`P` = asteval's reading of a transformed text, a parameter). -/
+
+/-- **`generated_update_eq_model`** — the translated loop of `update_parameter_expression` (list of
+    expression parameters taken once, one outer iteration per expression parameter, inner pass in
+    declaration order storing every value at once, `!=` change detection, `break` on a quiet pass,
+    `ValueError` when asteval hands back `None`) is the model's `update` — for every dict of any
+    size, any declaration order, any dependency graph (cycles included: same bound on the number of
+    passes), any bounds / flags, and also when an evaluation fails (same error, same state left). -/
+theorem generated_update_eq_model (F : Funs) (P : Parser) (self : Dict) :
+    absRes P (Gen.update_parameter_expression F P self) = update F (absAll P self) :=
+  update_eq F P self
+
+/-- reading of the example texts: `"B"` ↦ `$b*2`, `"C"` ↦ `$c+1` (any other text: the literal 0) -/
+def P0 : Parser := ⟨fun t =>
+  if t = some "B" then .mul (.ref "b") (.lit 2) else if t = some "C" then .add (.ref "c") (.lit 1) else .lit 0⟩
+
+/-- D3 as Python-level objects; `a` carries bounds its value will violate -/
+def d3py : Dict :=
+  [ { label := "a", value := none, expression := some "$b*2", transformed_expression := some "B", vary := false,
+      minimum := some 0, maximum := some 1 },
+    { label := "b", value := none, expression := some "$c+1", transformed_expression := some "C", vary := false },
+    { label := "c", value := some 3 } ]
+
+example : absAll P0 d3py = d3 := by decide +kernel
+example : (Gen.update_parameter_expression F0 P0 d3py).toOption.map (·.map (·.value)) = some [some 8, some 4, some 3] := by
+  decide +kernel
+
+/-- **`generated_init_eq_model`** — `Parameters.__init__` stores the dict, binds the interpreter's
+    symbol (the very identifier the replacement template starts with) to the object itself and runs
+    exactly one update: on the dict built from `items` it is the model's `construct`. -/
+theorem generated_init_eq_model (F : Funs) (P : Parser) (d : Dict) (items : List Param)
+    (h : absAll P d = ofList items) :
+    absRes P (Gen.Parameters_init F P d) = construct F items ∧ Gen.Parameters_evaluator_symbols = [templateRoot] := by
+  refine ⟨?_, by decide⟩
+  unfold construct
+  rw [← h]
+  exact init_eq F P d
+
+example : absAll P0 d3py = ofList d3 := by decide +kernel
+
+/-- **`generated_set_transformed_expression_eq_model`** — the validator of `expression`: for a truthy
+    text the parameter stops varying and the transformed text is the model's `rewrite` of the text
+    (`PARAMETER_EXPRESSION_REGEX.sub` with the template of the source, group reference expanded);
+    otherwise nothing happens.  On the model's view this is `normalize`. -/
+theorem generated_set_transformed_expression_eq_model (P : Parser) (p : Py.Parameter) (e : Option String) :
+    Gen.set_transformed_expression p () e =
+      (if Py.truthy e then { p with vary := false, transformed_expression := e.map rewrite } else p) ∧
+    (e ≠ some "" →
+      (Gen.set_transformed_expression { p with expression := e, transformed_expression := none } () e).abs P =
+        normalize (({ p with expression := e, transformed_expression := e.map rewrite } : Py.Parameter).abs P) ∧
+      Synced (Gen.set_transformed_expression { p with expression := e, transformed_expression := none } () e)) := by
+  refine ⟨ste_eq p e, ?_⟩
+  intro hne
+  rw [ste_eq]
+  cases e with
+  | none => simp [Py.truthy, Parameter.abs, normalize, Synced]
+  | some s =>
+    have hs : s ≠ "" := fun h => hne (by rw [h])
+    have ht : Py.truthy (some s) = true := by simp [Py.truthy, hs]
+    simp [ht, Parameter.abs, normalize, Synced]
+
+example : (Gen.set_transformed_expression { label := "a", value := none } () (some "$b.1*2")).transformed_expression =
+    some "parameters.get('b.1').value*2" := by decide +kernel
+
+/-- **`generated_copy_eq_model`** — `Parameters.copy`: every parameter is re-created by
+    `attrs.evolve` (the validator runs again: transformed text recomputed, `vary` cleared), the new
+    dict is keyed and ordered like the old one, and `__init__` **re-evaluates** every expression — the
+    model's `copy`.  Hypotheses: the objects are as their constructor leaves them (`Synced`) and no
+    expression is the empty text. -/
+theorem generated_copy_eq_model (F : Funs) (P : Parser) (self : Dict)
+    (h : ∀ p ∈ self, Synced p ∧ NoEmptyExpr p) :
+    absRes P (Gen.Parameters_copy F P self) = copy F (absAll P self) := by
+  unfold Gen.Parameters_copy copy construct ofList Py.dictOf
+  rw [init_eq, absAll_dictOf_copy P self [] h]
+  rfl
+
+/-- the copy of a consistent-or-not object is consistent: the copy re-evaluates -/
+theorem generated_copy_consistent (F : Funs) (P : Parser) (self new : Dict)
+    (h : ∀ p ∈ self, Synced p ∧ NoEmptyExpr p) (hwf : WF (absAll P self)) (hac : Acyclic (absAll P self))
+    (hc : Gen.Parameters_copy F P self = .ok new) : Consistent F (absAll P new) := by
+  have := generated_copy_eq_model F P self h
+  rw [hc] at this
+  exact consistent_after_copy F _ _ hwf hac this.symm
+
+/-- the same objects with the transformed texts the validator really produces -/
+def d3real : Dict :=
+  [ { label := "a", value := some 100, expression := some "$b*2", transformed_expression := some "parameters.get('b').value*2",
+      vary := false },
+    { label := "b", value := none, expression := some "$c+1", transformed_expression := some "parameters.get('c').value+1",
+      vary := false },
+    { label := "c", value := some 3 } ]
+
+def P1 : Parser := ⟨fun t =>
+  if t = some "parameters.get('b').value*2" then .mul (.ref "b") (.lit 2)
+  else if t = some "parameters.get('c').value+1" then .add (.ref "c") (.lit 1) else .lit 0⟩
+
+example : ∀ p ∈ d3real, Synced p ∧ NoEmptyExpr p := by
+  intro p hp
+  simp only [d3real, List.mem_cons, List.mem_nil_iff, or_false] at hp
+  rcases hp with rfl | rfl | rfl <;> refine ⟨by unfold Synced; decide +kernel, by unfold NoEmptyExpr; decide⟩
+
+/-- a stale `a = 100` is replaced by 8 in the copy -/
+example : (Gen.Parameters_copy F0 P1 d3real).toOption.map (·.map (·.value)) = some [some 8, some 4, some 3] := by
+  decide +kernel
+
+/-- a reading under which asteval called with `None` yields `None` (an undefined call) -/
+def PNone : Parser := ⟨fun t => if t = none then .call1 "None" (.lit 0) else .lit 0⟩
+
+/-- **the empty expression text** is outside `generated_copy_eq_model`: `expression = ""` is not `None`
+    (so `update_parameter_expression` evaluates the parameter) but falsy (so the validator leaves
+    `vary` and the transformed text alone): asteval is called with `None`, and construction raises. -/
+theorem empty_expression_text_counterexample :
+    let p : Py.Parameter := { label := "a", value := some 1, expression := some "" }
+    Gen.set_transformed_expression p () p.expression = p ∧ ¬ NoEmptyExpr p ∧
+    (Gen.Parameter_copy p).abs PNone ≠ normalize (p.abs PNone) ∧
+    Gen.Parameters_init F0 PNone [p] = .error (.expr "a" (.call "None" [some 0]), [p]) := by
+  refine ⟨by decide +kernel, by unfold NoEmptyExpr; decide, by decide +kernel, by decide +kernel⟩
+
+/-- **`generated_default_value_is_nan`** — a parameter declared without a number starts as NaN
+    (`value: float = ib(default=np.nan …)`), and it does not matter: the values after construction do
+    not depend on what the expression parameters held before (`update_ignores_stale_expression_values`). -/
+theorem generated_default_value_is_nan (F : Funs) (P : Parser) (a b a' b' : Dict)
+    (hwa : WF (absAll P a)) (hac : Acyclic (absAll P a)) (hs : Same (absAll P b) (absAll P a))
+    (hfree : ∀ l, ¬ IsExprLabel (absAll P a) l → valueOf (absAll P a) l = valueOf (absAll P b) l)
+    (ha : Gen.Parameters_init F P a = .ok a') (hb : Gen.Parameters_init F P b = .ok b') :
+    Gen.Parameter_value_default = (none : Val) ∧ ∀ l, valueOf (absAll P a') l = valueOf (absAll P b') l := by
+  refine ⟨rfl, ?_⟩
+  have h1 := init_eq F P a
+  have h2 := init_eq F P b
+  rw [ha] at h1
+  rw [hb] at h2
+  exact update_ignores_stale_expression_values F _ _ _ _ hwa hac hs hfree h1.symm h2.symm
+
+/-! ### bounds, flags, short labels, exported values -/
+
+/-- **`expression_value_ignores_bounds`** — the value of an expression parameter is its expression
+    value whatever its bounds (and `non_negative`, `vary`) say: the translated code never looks at
+    `minimum` / `maximum`, so after a successful update of an acyclic dict every expression parameter
+    holds exactly the value of its expression on the current values, and any dict that differs only
+    in what the model's view forgets (the bounds) gets the same values. -/
+theorem expression_value_ignores_bounds (F : Funs) (P : Parser) (a a' : Dict) (hwf : WF (absAll P a))
+    (hac : Acyclic (absAll P a)) (h : Gen.update_parameter_expression F P a = .ok a') :
+    (∀ p ∈ a', p.expression.isSome → eval F (absAll P a') (P.parse p.transformed_expression) = .ok p.value) ∧
+    (∀ b, absAll P b = absAll P a → absRes P (Gen.update_parameter_expression F P b) = .ok (absAll P a')) := by
+  have hm := generated_update_eq_model F P a
+  rw [h] at hm
+  have hc := consistent_after_update F _ _ hwf hac hm.symm
+  refine ⟨?_, ?_⟩
+  · intro p hp he
+    obtain ⟨s, hs⟩ := Option.isSome_iff_exists.mp he
+    exact hc (p.abs P) (List.mem_map_of_mem hp) (P.parse p.transformed_expression) (by simp [Parameter.abs, hs])
+  · intro b hb
+    rw [generated_update_eq_model, hb]; exact hm.symm
+
+/-- `a = $b*2` with `maximum = 1` ends at 8 — outside its bounds -/
+example : ((Gen.update_parameter_expression F0 P0 d3py).toOption.bind (·.head?)).map (fun p => (p.value, p.maximum)) =
+    some (some 8, some 1) := by decide +kernel
+
+/-- the part of a label behind its last dot (`Parameter.label_short`) -/
+def shortLabel (l : String) : String := String.ofList (l.toList.reverse.takeWhile (· ≠ '.')).reverse
+
+/-- **`short_label_irrelevant`** — evaluation looks parameters up by their *whole* label: changing the
+    value of any parameter that the expression does not reference by its full label — in particular
+    one that shares the last component (`rates.k.1` / `irf.c.1`) — does not change the value of the
+    expression.  (With `rewrite_valid_label`: the whole nested label is what the rewriting looks up.) -/
+theorem short_label_irrelevant (F : Funs) (env : List Param) (e : Expr) (l : String) (v : Val)
+    (h : l ∉ e.refs) : eval F (setValue env l v) e = eval F env e := by
+  apply eval_congr
+  intro r hr
+  have hne : r ≠ l := fun e' => h (e' ▸ hr)
+  rw [valueOf_setValue]
+  simp [hne]
+
+/-- two groups with the same short labels: `x.1 = $rates.k.1 * 2`, `y.1 = $irf.c.1 + 1` -/
+def shortDemo : List Param :=
+  [ { label := "x.1", value := none, expr := some (.mul (.ref "rates.k.1") (.lit 2)) },
+    { label := "y.1", value := none, expr := some (.add (.ref "irf.c.1") (.lit 1)) },
+    { label := "rates.k.1", value := some 3 }, { label := "irf.c.1", value := some 10 } ]
+
+example : shortLabel "rates.k.1" = shortLabel "irf.c.1" ∧ shortLabel "x.1" = "1" ∧
+    ((update F0 shortDemo).toOption.map (·.map (·.value))) = some [some 6, some 11, some 3, some 10] ∧
+    "irf.c.1" ∉ (Expr.mul (.ref "rates.k.1") (.lit 2)).refs := by decide +kernel
+
+/-- the rows an export without update shows (`to_dataframe`, `to_parameter_dict_list`, `copy` of
+    the objects): label and stored value of every parameter, in declaration order -/
+def exported (ps : List Param) : List (String × Val) := ps.map (fun p => (p.label, p.value))
+
+/-- **`exported_values_settled`** — every API that hands values out shows settled values: after
+    construction, `set_from_label_and_value_arrays`, `get_label_value_and_bounds_arrays` (what a
+    history row is made of) or `copy`, each exported row of an expression parameter is the value of
+    its expression on the exported rows themselves. -/
+theorem exported_values_settled (F : Funs) (ps : List Param) (hc : Consistent F ps) :
+    ∀ p ∈ ps, ∀ e, p.expr = some e →
+      (p.label, p.value) ∈ exported ps ∧
+      eval F (ps.map (fun q => ({ label := q.label, value := q.value } : Param))) e = .ok p.value := by
+  intro p hp e he
+  refine ⟨List.mem_map_of_mem (f := fun p => (p.label, p.value)) hp, ?_⟩
+  rw [← hc p hp e he]
+  apply eval_congr
+  intro l _
+  clear hc hp
+  induction ps with
+  | nil => rfl
+  | cons q rest ih => simp only [List.map_cons, valueOf]; split <;> simp_all
+
+example : Consistent F0 d3done ∧ exported d3done = [("a", some 8), ("b", some 4), ("c", some 3)] := by
+  refine ⟨?_, by decide +kernel⟩
+  intro p hp e he
+  simp only [d3done, List.mem_cons, List.mem_nil_iff, or_false] at hp
+  rcases hp with rfl | rfl | rfl
+  · cases he; decide +kernel
+  · cases he; decide +kernel
+  · cases he
+
+end GeneratedFunctions
 
 end Glotaran.C12
